@@ -234,8 +234,9 @@ def clear_sites(unit, fn, modes):
                 for x in walk(fn["body"]):
                     if x["k"] == "BinaryOperator" and x["op"] == "=" and var_of(x["c"][0]) == v:
                         srcs.append(strip(x["c"][1]))
-                    if x["k"] == "VarDecl" and x.get("id") == v[0] and x.get("c"):
-                        srcs.append(strip(x["c"][0]))
+                    for d in (x.get("decls", []) if x["k"] == "DeclStmt" else []):
+                        if d["did"] == v[0] and d.get("init") is not None:
+                            srcs.append(strip(d["init"]))
                 good = bool(srcs)
                 for r in srcs:
                     if r is None:
